@@ -338,14 +338,112 @@ func init() {
 	tableDumpers["schema"] = dumpSchema
 }
 
+func leanParams(tag string) string {
+	ps := paramStr(tag) // {opt,tag,explicit,set,open,str}
+	parts := strings.Split(ps[1:len(ps)-1], ",")
+	tn := "none"
+	if parts[1] != "-" {
+		tn = "some " + parts[1]
+	}
+	b := func(x string) string {
+		if x == "1" {
+			return "true"
+		}
+		return "false"
+	}
+	return fmt.Sprintf("⟨%s, %s, %s, %s, %s, %s⟩", b(parts[0]), tn, b(parts[2]), b(parts[3]), b(parts[4]), parts[5])
+}
+
+// leanTy renders a type as a Lean term of Chf.Ber.Ty; named cdrType structs are referred to by definition name
+func leanTy(t reflect.Type, top bool, deps *[]string) string {
+	switch t {
+	case asn.BitStringType:
+		return ".bits"
+	case asn.ObjectIdentifierType:
+		return ".oid"
+	case asn.OctetStringType:
+		return ".octets"
+	case asn.EnumeratedType:
+		return ".enum"
+	case asn.NullType:
+		return ".null"
+	case asn.IA5StringType:
+		return "(.str 22)"
+	case asn.GraphicStringType:
+		return "(.str 25)"
+	}
+	switch t.Kind() {
+	case reflect.Bool:
+		return ".bool"
+	case reflect.Int, reflect.Int64:
+		return "(.int 64)"
+	case reflect.Int32:
+		return "(.int 32)"
+	case reflect.String:
+		return "(.str 12)"
+	case reflect.Ptr:
+		return "(.ptr " + leanTy(t.Elem(), false, deps) + ")"
+	case reflect.Slice:
+		return "(.slice " + leanTy(t.Elem(), false, deps) + ")"
+	case reflect.Struct:
+		if !top && t.Name() != "" {
+			if _, ok := cdrTypes[t.Name()]; ok && cdrTypes[t.Name()] == t {
+				*deps = append(*deps, t.Name())
+				return "T_" + t.Name()
+			}
+		}
+		if t.NumField() == 0 {
+			return "(.struct .nil)"
+		}
+		fields := func(from int) string {
+			out := ".nil"
+			for i := t.NumField() - 1; i >= from; i-- {
+				out = fmt.Sprintf("(.cons %s %s %s)", leanParams(t.Field(i).Tag.Get("ber")), leanTy(t.Field(i).Type, false, deps), out)
+			}
+			return out
+		}
+		switch t.Field(0).Name {
+		case "Value", "List":
+			return "(.wrap " + leanTy(t.Field(0).Type, false, deps) + ")"
+		case "Present":
+			return "(.choice " + fields(1) + ")"
+		}
+		return "(.struct " + fields(0) + ")"
+	}
+	return ".unsupported"
+}
+
 func dumpSchema() {
 	var sb strings.Builder
 	sb.WriteString("/- GENERATED from the repository's working tree by `verifharness dump-tables schema` — do not edit. -/\n")
-	sb.WriteString("namespace Chf.Gen\n\n/-- every type of cdr/cdrType as reflect sees it, in the notation of Driver/BerIO.lean -/\n")
-	sb.WriteString("def schemaText : List (String × String) := [\n")
+	sb.WriteString("import ChfVerif.Model.Ber\nnamespace Chf.Gen\nopen Chf.Ber\n\n")
+	// definitions in dependency order
+	done := map[string]bool{}
+	var emit func(n string, stack map[string]bool)
+	emit = func(n string, stack map[string]bool) {
+		if done[n] {
+			return
+		}
+		if stack[n] {
+			return // recursive type: the inner reference stays undefined and the build fails visibly
+		}
+		stack[n] = true
+		var deps []string
+		term := leanTy(cdrTypes[n], true, &deps)
+		for _, d := range deps {
+			emit(d, stack)
+		}
+		done[n] = true
+		fmt.Fprintf(&sb, "def T_%s : Ty := %s\n", n, term)
+	}
+	for _, n := range cdrTypeNames {
+		emit(n, map[string]bool{})
+	}
+	sb.WriteString("\n/-- every type declared in cdr/cdrType, as reflect and the codec's naming conventions see it -/\n")
+	sb.WriteString("def schema : List (String × Ty) := [\n")
 	var rows []string
 	for _, n := range cdrTypeNames {
-		rows = append(rows, fmt.Sprintf("  (%q, %q)", n, tyStr(cdrTypes[n], 0)))
+		rows = append(rows, fmt.Sprintf("  (%q, T_%s)", n, n))
 	}
 	sb.WriteString(strings.Join(rows, ",\n"))
 	sb.WriteString("\n]\n\nend Chf.Gen\n")
@@ -425,6 +523,14 @@ func genBer(o genOpts, w *bufio.Writer) {
 			}
 		}
 	}
+	// long-form lengths of 1..9 octets around a two-octet OCTET STRING
+	for k := 1; k <= 9; k++ {
+		lo := make([]byte, k)
+		lo[k-1] = 2
+		fmt.Fprintf(w, "ber U %s %s 04%02x%sabcd\n", tyStr(asn.OctetStringType, 0), paramStr(""), 0x80|k, hx(lo))
+		lo[0] |= 0x80
+		fmt.Fprintf(w, "ber U %s %s 04%02x%sabcd\n", tyStr(asn.OctetStringType, 0), paramStr(""), 0x80|k, hx(lo))
+	}
 	for i := 0; i < o.n*2; i++ {
 		t := targets[r.intn(len(targets))]
 		if r.chance(30) {
@@ -436,7 +542,19 @@ func genBer(o genOpts, w *bufio.Writer) {
 		if err != nil || len(b) == 0 {
 			b = r.bytes(1 + r.intn(6))
 		}
-		switch r.intn(6) {
+		switch r.intn(7) {
+		case 6:
+			// the outer length rewritten in (non-minimal) long form with k length octets, k = 1..9
+			if len(b) >= 2 && b[0]&0x1f != 0x1f && b[1] < 0x80 {
+				k := 1 + r.intn(9)
+				lo := make([]byte, k)
+				lo[k-1] = b[1]
+				if r.chance(15) {
+					lo[0] |= 0x80
+				}
+				nb := append([]byte{b[0], byte(0x80 | k)}, lo...)
+				b = append(nb, b[2:]...)
+			}
 		case 0:
 			b = b[:r.intn(len(b)+1)]
 		case 1:
